@@ -27,6 +27,7 @@ import (
 	"os"
 	"sort"
 	"strings"
+	"sync"
 	"syscall"
 	"time"
 
@@ -99,6 +100,7 @@ type execution struct {
 	Elapsed             time.Duration
 	AfterCancelAdvance  time.Duration
 	AttemptsAfterCancel int
+	WaitsAfterCancel    int // back-off timers armed after the caller had gone
 	Panic               string
 }
 
@@ -126,11 +128,17 @@ func retryPhase() {
 		tconf.Retries = retries
 		tconf.Timeout = attemptTimeout
 		tok := worker.VerifNewToken(cfg, tconf, "cookie", "worker.invalid:1")
-		opts := mc.Options{MaxDeviations: -1}
+		// an execution that does not follow its prefix (the tree under test lets a
+		// goroutine of its own decide the order of events) is run again; a prefix
+		// that never replays is skipped and the search reported as not exhaustive
+		opts := mc.Options{MaxDeviations: -1, RetryDivergence: 4}
 		st := mc.Explore(opts, func(c *mc.Ctx) {
 			ex := runRetry(c, tok, retries, limit)
 			judgeRetry(c, ex, limit)
 		})
+		if st.Diverged > 0 {
+			run.Capped(fmt.Sprintf("retry exploration (retries=%d): %d choice prefix(es) could not be replayed in 5 attempts and were skipped with their subtrees", retries, st.Diverged))
+		}
 		run.Set(fmt.Sprintf("retry_executions_retries_%d", retries), st.Executions)
 		run.AddTransitions(st.ChoicePoints)
 	}
@@ -138,6 +146,9 @@ func retryPhase() {
 
 func runRetry(c *mc.Ctx, tok *worker.WorkerToken, retries, limit int) (ex execution) {
 	ex.Retries = retries
+	var graceMu sync.Mutex
+	ended := false
+	defer func() { graceMu.Lock(); ended = true; graceMu.Unlock() }()
 	vtime.ResetClock()
 	start := vtime.Now()
 	// caller context: a virtual deadline context so that both "cancel" and
@@ -181,11 +192,32 @@ func runRetry(c *mc.Ctx, tok *worker.WorkerToken, retries, limit int) (ex execut
 			return // per-attempt deadline: fires only if the transport says so
 		}
 		backoff(v.D, v.Expire)
+		if ex.Cancelled != "" && v.Err() == nil {
+			// the caller has gone and this wait is still open: it does not descend
+			// from the caller's context (a context that does ends with it, at once).
+			// It elapses, so that the execution goes on and is judged.
+			ex.WaitsAfterCancel++
+			v.Expire()
+		}
 	}
 	vtime.OnTimer = func(t *vtime.Timer) {
 		if ex.Cancelled != "" {
 			// the caller is already gone: its Done channel is what ends this wait
-			// (a timeout context derived from it would not even start)
+			// (a timeout context derived from it would not even start). Code that
+			// does not watch the caller any more would wait here for ever: after a
+			// grace period of real time, which only such code reaches, the timer
+			// elapses and the execution goes on to be judged.
+			ex.WaitsAfterCancel++
+			go func() {
+				time.Sleep(300 * time.Millisecond)
+				// only while this execution is still running: a timer of a finished
+				// execution must not move the clock of the next one
+				graceMu.Lock()
+				if !ended {
+					t.Elapse()
+				}
+				graceMu.Unlock()
+			}()
 			return
 		}
 		backoff(t.D(), func() { t.Elapse() })
